@@ -182,6 +182,20 @@ def oneof_shared_dep() -> Spec:
     ], "A", "O")
 
 
+def oneof_diamond() -> Spec:
+    """First candidate joins a fallible chain F -> M and an independent (possibly slow) node S:
+    F may fail while S is still in flight, so the failing branch cancels pending sibling work."""
+    return Spec("oneof_diamond", [
+        Node("A"),
+        Node("F", (("a", In("A")),), kinds=F),
+        Node("S", (("a", In("A")),)),
+        Node("M", (("f", In("F")),)),
+        Node("C1", (("m", In("M")), ("s", In("S")))),
+        Node("C2", (("a", In("A")),), kinds=F),
+        Node("O", (("v", OneOf(("C1", "C2"))),)),
+    ], "A", "O")
+
+
 # --------------------------------------------------------------- recurrent ---
 def rec_simple(max_iter: int = 2, use_default: bool = False, fall: bool = False) -> Spec:
     return Spec("rec_simple", [
@@ -297,6 +311,6 @@ def retry_chain(attempts: int = 3, use_default: bool = True) -> Spec:
 TEMPLATES: Dict[str, Callable[..., Spec]] = {f.__name__: f for f in [
     chain, rhombus, fan, mixed_modes, switch_basic, switch_deep, switch_nested, switch_shared_case,
     switch_case_also_input, oneof_basic, oneof_depth, oneof_three, oneof_nested, oneof_sibling,
-    oneof_chained, oneof_with_switch, oneof_shared_dep, rec_simple, rec_inner_start, rec_outside_reader,
+    oneof_chained, oneof_with_switch, oneof_shared_dep, oneof_diamond, rec_simple, rec_inner_start, rec_outside_reader,
     rec_two_scopes, rec_with_switch, rec_with_oneof, rec_in_oneof, rec_nested, retry_sibling, retry_chain,
 ]}
